@@ -259,6 +259,67 @@ theorem tandy6_planes_independent (m : Mode) (hm : m ∈ table) (hk : m.kind = 3
     peek m np (poke m np s a v) a' = peek m np s a' :=
   t6_planes_independent m (table_wf m hm) hk np s a a' v hc hpar
 
+
+/-! ### mode switches: video memory is accessed through the mapper of the CURRENT mode object
+
+  (`Machine`, `switchMode` in the model.)  The registers of the EGA mapper live in the mode object; a
+  switch to a mode with another name installs a fresh one, a SCREEN statement naming the current mode
+  keeps it. -/
+
+/-- `SCREEN n` (with or without page arguments) naming the current mode keeps screen and registers -/
+theorem switch_same_name_keeps (mc : Machine) (m : Mode) (np : Nat) (h : m.name = mc.mode.name) :
+    switchMode mc m np = mc := by
+  unfold switchMode; rw [if_pos h]
+
+/-- a switch to a mode with another name: fresh registers (read plane 0, all planes writable), erased pages -/
+theorem switch_other_name_resets (mc : Machine) (m : Mode) (np : Nat) (h : m.name ≠ mc.mode.name) :
+    (switchMode mc m np).mode = m ∧ (switchMode mc m np).np = np ∧
+    (switchMode mc m np).st.plane = 0 ∧ (switchMode mc m np).st.mask = 255 ∧
+    ∀ p y x, (switchMode mc m np).st.pix p y x = initScr m p y x := by
+  unfold switchMode; rw [if_neg h]
+  exact ⟨rfl, rfl, rfl, rfl, fun _ _ _ => rfl⟩
+
+/-- Leaving a mode and entering a mode of the same name again: whatever plane registers were set
+    (before leaving, or in the intermediate mode), memory access in the re-entered mode starts from read
+    plane 0 and write mask 0xff, and follows the OUTs made after the re-entry. -/
+theorem away_and_back_resets_registers (mc : Machine) (m' m : Mode) (np' np v w v' w' : Nat)
+    (h1 : m'.name ≠ mc.mode.name) (h2 : m.name ≠ m'.name) :
+    let back := switchMode (mOutMask (mOutPlane (switchMode (mOutMask (mOutPlane mc v) w) m' np') v') w') m np
+    back.mode = m ∧ back.st.plane = 0 ∧ back.st.mask = 255 ∧
+    (∀ r, (mOutPlane back r).st.plane = r) ∧ (∀ k, (mOutMask back k).st.mask = k) := by
+  intro back
+  have ha : (switchMode (mOutMask (mOutPlane mc v) w) m' np').mode = m' :=
+    (switch_other_name_resets (mOutMask (mOutPlane mc v) w) m' np' h1).1
+  have hb := switch_other_name_resets
+    (mOutMask (mOutPlane (switchMode (mOutMask (mOutPlane mc v) w) m' np') v') w') m np
+    (by show m.name ≠ (switchMode (mOutMask (mOutPlane mc v) w) m' np').mode.name; rw [ha]; exact h2)
+  exact ⟨hb.1, hb.2.2.1, hb.2.2.2.1, fun _ => rfl, fun _ => rfl⟩
+
+/-- after such a re-entry a POKE is read back by PEEK without touching the registers, in every planar mode
+    whose plane 0 is in use (all but SCREEN 10), and in every packed, Tandy-6 and text mode -/
+theorem reentry_poke_then_peek (mc : Machine) (m' m : Mode) (hm : m ∈ table) (np' np v w a b : Nat)
+    (h1 : m'.name ≠ mc.mode.name) (h2 : m.name ≠ m'.name) (hb : b < 256)
+    (hok : coordOk m np (getCoords m a) = true)
+    (hplane : m.kind = 2 → planeUsed m (0 % m.planeMod) = true ∧ (255 &&& m.masterMask).testBit (0 % m.planeMod) = true) :
+    mPeek (mPoke (switchMode (switchMode (mOutMask (mOutPlane mc v) w) m' np') m np) a b) a = b := by
+  have ha : (switchMode (mOutMask (mOutPlane mc v) w) m' np').mode = m' :=
+    (switch_other_name_resets (mOutMask (mOutPlane mc v) w) m' np' h1).1
+  have hne : m.name ≠ (switchMode (mOutMask (mOutPlane mc v) w) m' np').mode.name := by rw [ha]; exact h2
+  have hs : switchMode (switchMode (mOutMask (mOutPlane mc v) w) m' np') m np = ⟨m, np, initSt m⟩ := by
+    generalize switchMode (mOutMask (mOutPlane mc v) w) m' np' = mid at hne
+    unfold switchMode; rw [if_neg hne]
+  rw [hs]
+  show peek m np (poke m np (initSt m) a b) a = b
+  rcases kind_cases m hm with h | h | h | h
+  · exact poke_then_peek_textmode m h np _ a b hok
+  · exact poke_then_peek_packed m hm h np _ a b hb hok
+  · obtain ⟨hu, hw⟩ := hplane h
+    exact poke_then_peek_planar m hm h np _ a b hb hok hu hw
+  · exact poke_then_peek_tandy6 m hm h np _ a b hb hok
+
+example : planeUsed m10 (0 % m10.planeMod) = true ∧ (255 &&& m10.masterMask).testBit (0 % m10.planeMod) = true := by decide
+example : m10.name ≠ m20.name ∧ m20.name ≠ m10.name := by decide
+
 /-! ### the code before the repair -/
 
 /-- D11: Tandy/PCjr SCREEN 5, block of 10 bytes at B800:1FFD — the old walk is not bytewise -/
